@@ -998,9 +998,11 @@ def gen_big_history(rng, maxsize=64, sizes=None):
             return ['v', 0]
         if q < 0.88:
             return ['f', 'f', [rng.choice(atoms + [['v', 0]])]]
-        if q < 0.92:
-            return ['s', 'a']
-        if q < 0.96:
+        if q < 0.91:
+            return ['s', 'a']                      # the string 'a' is not the atom a
+        if q < 0.94:
+            return ['a', '1']                      # the atom '1' is not the integer 1
+        if q < 0.97:
             return ['a', '[]']
         return mklist_a()
     def mklist_a():
@@ -1033,10 +1035,12 @@ def gen_big_history(rng, maxsize=64, sizes=None):
             return rng.choice(atoms[:2] + ([['i', 1]] if prof in ('atomint', 'mixed') else []))
         if q < 0.85:
             return ['v', 0]
-        if q < 0.9:
+        if q < 0.89:
             return ['a', 'zz']
-        if q < 0.95:
+        if q < 0.93:
             return ['f', 'f', [['v', 0]]]
+        if q < 0.96:
+            return rng.choice([['a', '1'], ['s', 'a'], ['a', '[]']])
         return ['i', 2]
     def pattern(bound=False):
         args = [pat_first()]
